@@ -192,6 +192,13 @@ def main_c19(pid, tier, seed, replay_path=None):
     n, nq = (20, 14) if tier == "quick" else (300, 22)
     out = os.path.join(build.WORK, "scratch", "c19-%d-%s" % (seed, tier))
     recs, extras = l3batch.l3_batch(seed + 50, n, nq, dr, out, binary=binary, opts=dict(summary=True), profiles=("opt", "loops", "grid", "tiny", "asymfp", "mixedwait", "wide"))
+    # the same on servers that STARTED on an incomplete directory (no stop file) and were then refreshed over HTTP: the summary
+    # handler must follow the data status exactly as the route handler does
+    n2 = 4 if tier == "quick" else 40
+    recs2, extras2 = l3batch.l3_batch(seed + 51, n2, nq, dr, out + "-refreshed", binary=binary, opts=dict(summary=True, start_incomplete=True),
+                                      profiles=("opt", "grid", "tiny", "wide"))
+    recs = recs + recs2
+    extras.update(extras2)
     fails, nontriv, evals = [], set(), 0
     for r in recs:
         ds, ops, raws, info = extras[r["case"]]
@@ -229,7 +236,7 @@ def main_c19(pid, tier, seed, replay_path=None):
     cov = dict(obligations=max(1, po["obligations"]), discharged=po["discharged"], checker_cmd=po["checker_cmd"], trusted_base=cl.TRUSTED_BASE,
                theorems=po["theorems"], print_assumptions=po["assumptions"], open_statements=cl_open(pid),
                evaluations=evals, distinct_nontrivial=len(nontriv),
-               rule="GET /v2/route and GET /v2/summary with identical parameters on the real binary (with and without alternatives, failing queries included); the summary must equal the aggregation (lines ordered by uuid, boardings counted over all routes) of the route answer; non-trivial = >=2 routes or >=2 boardings",
+               rule="GET /v2/route and GET /v2/summary with identical parameters on the real binary (with and without alternatives, failing queries included); the summary must equal the aggregation (lines ordered by uuid, boardings counted over all routes) of the route answer; a second group of servers STARTS without the stop file and is refreshed over HTTP before the requests; non-trivial = >=2 routes or >=2 boardings",
                samples=samples or [dict(note="none")], disagreements=len(fails), exhaustive=False)
     cl.write_evidence(pid, tier, seed, "proof", cov, ["HTTP framing by SimpleWeb trusted"], time.time() - t0, len(viol))
     print("%s %s: obligations %d/%d, %d endpoint pairs (%d non-trivial), %d violations, %.1fs" % (pid, tier, po["discharged"], po["obligations"], evals, len(nontriv), len(fails), time.time() - t0))
